@@ -60,6 +60,30 @@ def Step.nonneg : Step → Bool
   | .measure _ x _ => decide (0 ≤ x)
   | .collect _ => true
 
+/-! ## histories with abandoned collections
+
+A collection whose context is already done when `pipeline.produce` consults it (after a callback) is abandoned
+BEFORE any compute function runs: it returns an error and no data and touches no aggregator.  (Once aggregation has
+started the context is not consulted any more, so a later cancellation/expiry yields an ordinary `collect` step.) -/
+
+inductive XStep where
+  | step (s : Step)
+  /-- a collection abandoned before aggregation -/
+  | abandoned (t : Nat)
+deriving Repr, DecidableEq
+
+def St.xstep (s : St) : XStep → St
+  | .step x => s.step x
+  | .abandoned _ => s
+
+def St.xrun (s : St) (xs : List XStep) : St := xs.foldl St.xstep s
+
+/-- the same history with the abandoned collections erased -/
+def eraseAbandoned (xs : List XStep) : List Step :=
+  xs.filterMap fun
+    | .step x => some x
+    | .abandoned _ => none
+
 /-! ## n pipelines (one aggregator per reader for the same instrument) -/
 
 /-- a step of pipeline `p`; `Add(a, x)` with ghost id `i` by some goroutine is the sequence
